@@ -45,6 +45,8 @@ CHECKS = {
     "C01": data(),
     "C05": admin(),
     "C06": admin(),
+    "C10": admin(extra_assumptions=["Token expiry is crossed with the hooked virtual clock; verdicts within 2 s of an expiry boundary are skipped.",
+                                    "The secret scan looks for every password and raw token used in the history, as bytes and as base64, in every file under the data directory (the default root password 'iggy' equals the user name and is excluded)."]),
     "C02": data(),
     "C03": data(),
     "C07": data(extra_assumptions=["Named consumers collide with numeric ones only through the 32-bit name hash; that probability is ignored."]),
